@@ -259,7 +259,7 @@ class LockStep:
 
 
 def _leg_exhaustive(chk: Check, job: dict[str, Any]) -> None:
-    """Every sequence of alloc(1..maxsize) / free(i-th live) of length <= maxlen starting with job['first']."""
+    """Every sequence of alloc(1..maxsize) / free(i-th live) of length <= maxlen that starts with one of job['prefixes']."""
     from lib.models import shm_alloc as M
     from vgi_rpc.shm import ShmAllocator
 
@@ -267,39 +267,61 @@ def _leg_exhaustive(chk: Check, job: dict[str, Any]) -> None:
     total = M.HEADER_BYTES + data
     maxlen = job["maxlen"]
     sizes = list(range(1, job["maxsize"] + 1))
-    raw = bytearray(total)
-    mv = memoryview(raw)
-    ShmAllocator.initialize(mv, total)
-    alloc = ShmAllocator(mv, total)
-    ls = LockStep(chk, f"exh{data}", alloc, mv, data)
     snap_len = M.FIXED_FIELDS + M.ENTRY_BYTES * (maxlen + 1)
-    seqs = [0]
+    seqs = 0
+    for prefix in job["prefixes"]:
+        raw = bytearray(total)
+        mv = memoryview(raw)
+        ShmAllocator.initialize(mv, total)
+        alloc = ShmAllocator(mv, total)
+        ls = LockStep(chk, f"exh{data}", alloc, mv, data)
 
-    def rec(depth: int) -> None:
-        if depth == maxlen:
-            seqs[0] += 1
-            return
-        ops: list[tuple[str, int]] = [("a", s) for s in sizes] + [("f", i) for i in range(len(ls.model.live))]
-        if depth == 0:
-            ops = [("a", s) for s in job["first"]]
-        for kind, arg in ops:
-            snap = bytes(raw[:snap_len])
-            msnap = list(ls.model.live)
-            hlen = len(ls.history)
+        def apply(kind: str, arg: int, ls: LockStep = ls) -> None:
             if kind == "a":
                 ls.allocate(arg)
             else:
                 ls.free(ls.model.live[arg][0])
-            rec(depth + 1)
-            raw[:snap_len] = snap
-            ls.model.live = msnap
-            del ls.history[hlen:]
-        if depth > 0:
-            seqs[0] += 0
 
-    rec(0)
-    chk.extra["exhaustive_sequences"] = chk.extra.get("exhaustive_sequences", 0) + seqs[0]
+        def rec(depth: int, raw: bytearray = raw, ls: LockStep = ls) -> int:
+            if depth == maxlen:
+                return 1
+            n = 0
+            ops: list[tuple[str, int]] = [("a", s) for s in sizes] + [("f", i) for i in range(len(ls.model.live))]
+            for kind, arg in ops:
+                snap = bytes(raw[:snap_len])
+                msnap = list(ls.model.live)
+                hlen = len(ls.history)
+                apply(kind, arg)
+                n += rec(depth + 1)
+                raw[:snap_len] = snap
+                ls.model.live = msnap
+                del ls.history[hlen:]
+            return n
+
+        ok = True
+        for kind, arg in prefix:
+            if kind == "f" and arg >= len(ls.model.live):
+                ok = False  # prefix not applicable (nothing to free at that index)
+                break
+            apply(kind, arg)
+        if ok:
+            seqs += rec(len(prefix))
+        ls = None  # type: ignore[assignment]
+    chk.extra["exhaustive_sequences"] = chk.extra.get("exhaustive_sequences", 0) + seqs
     chk.hit("exhaustive_leg")
+
+
+def exhaustive_prefixes(maxsize: int, depth: int) -> list[list[tuple[str, int]]]:
+    """All operation prefixes of length *depth* (1 or 2); together they cover every sequence."""
+    firsts: list[list[tuple[str, int]]] = [[("a", s)] for s in range(1, maxsize + 1)]
+    if depth == 1:
+        return firsts
+    out: list[list[tuple[str, int]]] = []
+    for f in firsts:
+        for s in range(1, maxsize + 1):
+            out.append([*f, ("a", s)])
+        out.append([*f, ("f", 0)])  # after one allocation (placed or refused) index 0 is the only possible free
+    return out
 
 
 def _adversarial_size(rng: random.Random, model: Any, cap: int) -> int:
@@ -833,9 +855,10 @@ def main(tier: str, seed: int) -> int:
     else:
         exh = [(12, 6, 8), (33, 6, 8), (64, 7, 8)]
     for data, maxlen, maxsize in exh:
-        firsts = [[s] for s in range(1, maxsize + 1)] if (maxlen >= 7) else [list(range(1, 5)), list(range(5, maxsize + 1))]
-        for first in firsts:
-            jobs.append({"kind": "exh", "tier": tier, "seed": seed, "data": data, "maxlen": maxlen, "maxsize": maxsize, "first": first})
+        prefixes = exhaustive_prefixes(maxsize, 2 if maxlen >= 7 else 1)
+        ngroups = 2 if quick else (32 if maxlen >= 7 else 4)
+        for part in shard.split(prefixes, ngroups):
+            jobs.append({"kind": "exh", "tier": tier, "seed": seed, "data": data, "maxlen": maxlen, "maxsize": maxsize, "prefixes": part})
         chk.exhaustive[f"alloc_free_sequences:data={data}B,sizes=1..{maxsize},len<={maxlen}"] = True
     nrand = 3 if quick else 12
     for i in range(nrand):
